@@ -60,7 +60,7 @@ Section Iter.
   (* Node::new_node(p, Dir, Metadata { mode: Some(0o755), ..default }) *)
   Definition synth (name : N) : node :=
     {| n_name := name; n_type := TDir;
-       n_meta := {| m_size := 0; m_mtime := None; m_ctime := None; m_inode := 0; m_other := 493 |};
+       n_meta := {| m_size := 0; m_mtime := None; m_ctime := None; m_inode := 0; m_other := synth_mode |};
        n_content := None; n_subtree := None |}.
 
   Definition node_is_dir (nd : node) : bool := match n_type nd with TDir => true | _ => false end.
